@@ -25,7 +25,8 @@ RULE = ("one case = random map pipeline x persisting storage (file_array | dict 
         "in the process that ran the map or after a simulated process exit (all manager processes shut down, all "
         "objects dropped, directory order re-permuted), possibly several successive fresh processes; a quarter of the cases "
         "spell the run folder relatively or absolutely per call and move the working directory between loads; after the run "
-        "every stored file must carry the permissions the umask grants. "
+        "every stored file must carry the permissions the umask grants; the dataset built from the results in hand is a second baseline "
+        "for the folder loader. "
         "distinct_nontrivial = distinct (workload, storage, load history) digests containing at least one load after "
         "a process exit")
 COMPONENTS = {
